@@ -10,7 +10,7 @@ import itertools
 
 from vlib import gen_expr as G
 from vlib import refsem
-from vlib.harness import Failure, Stats, hyp_search, pmap
+from vlib.harness import blame, Failure, Stats, hyp_search, pmap, repo_frame_sig
 
 LEVEL = "exploration"
 
@@ -582,6 +582,13 @@ def neighbors_all(_):
                     check_neighbors(case)
                 except Failure as f:
                     st.fail(f, case, "c12.neighbors")
+                except Exception as e:
+                    # raised by the library on a well-formed call (e.g. after an earlier result was changed by
+                    # its caller): a failure of the code under test; my own exceptions stay harness errors
+                    if blame(e) != "repo":
+                        raise
+                    st.fail(Failure("exception|" + repo_frame_sig(e), observed="%s: %s" % (type(e).__name__, str(e)[:160])),
+                            case, "c12.neighbors")
                 st.case(nontrivial=True, counted=True, classes=["group:neighbors"], sample=case)
     return st
 
